@@ -25,4 +25,4 @@ package util
 //@ invariant [range] 0 <= _n && _n < workers
 //@ invariant [cover] extentSize >= 1 && (workers - 1) * extentSize < inputLen && inputLen <= workers * extentSize
 //@ loop #2
-//@ invariant true
+//@ invariant [range] 0 <= _n && _n < workers && len(results) == workers
